@@ -10,6 +10,7 @@
 #include <unistd.h>
 #include "a/utf.h"
 #include "a/str.h"
+#include "watchdog.h"
 
 static long n_events;
 static FILE *fo[64];
@@ -67,6 +68,7 @@ static unsigned int dec(unsigned char const *p, int n, a_u32 *val)
 
 static void ev_cp(uint32_t cp)
 {
+    wd_arm(20, "code point event");
     unsigned char enc[16];
     memset(enc, 0xAA, sizeof(enc));
     snprintf(cur_desc, sizeof(cur_desc), "\"f\":\"cp\",\"cp\":%u", cp);
@@ -93,6 +95,7 @@ static void ev_cp(uint32_t cp)
 
 static void ev_bytes(unsigned char const *b, int len)
 {
+    wd_arm(20, "byte string event");
     for (int num = 0; num <= len; ++num)
     {
         snprintf(cur_desc, sizeof(cur_desc), "\"f\":\"bytes\",\"num\":%d,\"b0\":%d,\"b1\":%d,\"len\":%d", num, len > 0 ? b[0] : -1, len > 1 ? b[1] : -1, len);
@@ -217,6 +220,7 @@ int main(int argc, char **argv)
     {
         for (uint64_t cp = 1; cp <= 0x7FFFFFFFull; cp += (uint64_t)step)
         {
+            if ((swept & 0xFFFFF) == 0) { wd_arm(120, "native code point sweep"); } /* re-armed every 2^20 code points */
             unsigned char enc[8];
             unsigned int want = 1;
             for (int k = 2; k <= 6; ++k)
